@@ -53,6 +53,12 @@ OpenAs(f) ==
   /\ hist' = Append(hist, f)
   /\ UNCHANGED <<registry, sel>>
 
+\* registerreader(n, cls) - also what creating a subclass of the file class
+\* does: a new name goes to the FRONT of the registry; a known name changes nothing
+Register(n) ==
+  /\ registry' = IF n \in Names(registry) THEN registry ELSE <<n>> \o registry
+  /\ UNCHANGED <<hist, sel>>
+
 Next == \E f \in Files : Open(f)
 
 Spec == Init /\ [][Next]_vars
